@@ -297,6 +297,11 @@ macro_rules! mixed_widths {
             (16, 32) => $f::<16, 32>($op, $a),
             (32, 16) => $f::<32, 16>($op, $a),
             (64, 32) => $f::<64, 32>($op, $a),
+            (16, 24) => $f::<16, 24>($op, $a),
+            (32, 64) => $f::<32, 64>($op, $a),
+            (64, 128) => $f::<64, 128>($op, $a),
+            (128, 64) => $f::<128, 64>($op, $a),
+            (64, 16) => $f::<64, 16>($op, $a),
             _ => Some(UNSUP.to_string()),
         }
     };
